@@ -76,7 +76,18 @@ func blen(r *hx.Rand) int {
 
 func gen(g *hx.Gen) {
 	r := g.R
-	n := g.Count(600, 6000)
+	// threads is a uint8 in the API and must be widened before any arithmetic: parallelism degrees around every
+	// multiple of 64 (4*threads wraps in uint8 there) and the extremes, in every run, for Key and IDKey.
+	// memory 8 → the floor rule gives 8*threads blocks; 11*threads → rounds down to 8*threads; 12*threads+5 → 12*threads
+	for _, p := range []int{63, 64, 65, 127, 128, 129, 191, 192, 193, 254, 255} {
+		for k, mode := range []string{"i", "id"} {
+			m := []int{8, 11 * p, 8*p + 1, 12*p + 5}[(p+k)%4]
+			g.Stat("p.high")
+			g.Emit("a2 mode=%s api=pub path=%s pw=%s salt=%s secret=- ad=- t=1 m=%d p=%d len=32", mode,
+				r.PickStr("sse4", "nosse4"), hx.Hex(r.Bytes(8)), hx.Hex(r.Bytes(16)), m, p)
+		}
+	}
+	n := g.Count(580, 6000)
 	for i := 0; i < n; i++ {
 		mode := r.PickStr("i", "i", "i", "id", "id", "id", "d")
 		p := r.PickInt(1, 1, 2, 2, 3, 4, 4, 5, 8)
